@@ -153,7 +153,7 @@ def twoBody (E : Edges) (p q r s : Nat) : Option Op :=
       let poly4 := addOp tol poly3 (mulOp .qubit (B q) (B r))
       let poly5 := addOp tol poly4 (mulOp .qubit (B q) (B s))
       let poly6 := subOp tol poly5 (mulOp .qubit (B r) (B s))
-      let poly7 := addOp tol poly6 (mulOp .qubit (mulOp .qubit (mulOp .qubit (B p) (B q)) (B r)) (B s))
+      let poly7 := subOp tol poly6 (mulOp .qubit (mulOp .qubit (mulOp .qubit (B p) (B q)) (B r)) (B s))
       some (iadd tol [] (mulOp .qubit (mulOp .qubit (smul eighthQ Apq) Ars) poly7))
     | _, _ => none
   else if nd == 3 then
